@@ -618,11 +618,11 @@ func c13Sample(rng *rand.Rand, maxN int, iupac bool) []c13Item {
 // c13Contention : one hub and n sons, each at one difference, plus a second hub one difference away from most
 // of them: every row ends with increments of the same two counters.
 func c13Contention(rng *rand.Rand, n int) []c13Item {
-	length := 12 + rng.Intn(20)
+	length := 40 + rng.Intn(20)
 	hub := c13RandSeq(rng, length)
 	items := []c13Item{{hub, 100000}}
 	seen := map[string]bool{string(hub): true}
-	for len(items) < n {
+	for tries := 0; len(items) < n && tries < 50*n; tries++ {
 		v := c13Mutate(rng, hub, false)
 		if seen[string(v)] {
 			continue
